@@ -323,6 +323,9 @@ def process(unit_name, tpl_path=None, out_dir=None):
             text = rp.strip_comments(src[fs:fe])
             text, log = rw.apply(text, ['R6'] + d['uses'], what)
             unit.rewrites += log
+            left = rw.unrouted_allocations(text)
+            if left:
+                raise AnchorError(f'{what}: allocation site not routed through the C13 wrappers (use R17): {left[0]}')
             name = a['name']
             if 'rename' in a:
                 text = re.sub(r'\bfn\s+' + re.escape(name) + r'\b', 'fn ' + a['rename'], text, count=1)
